@@ -180,6 +180,19 @@ class C14(Check):
                     cases.append(Case(cid, lib_line(cid, prog, [("<stdin>", files[0][1])], sels), sc.meta(role="library run, stdin"), True))
             else:
                 cases.append(Case(sid + "X", None, sc.meta(role="front-end fault, binary only"), True))
+        # ---- programs without a pattern rule on every malformed document (always, not by chance): the input is still read
+        # and validated, from a named file and from stdin alike
+        k = 0
+        for prog in ("BEGIN { print 'hi' }", "END { print 'end' }", "BEGIN { print 'b' }\nEND { print 'e' }", "", "# nothing",
+                     "function f() { return 1 }\nBEGIN { print f() }", "BEGINFILE { print 'bf' }"):
+            for text in MALFORMED + ['{"a": [1, 2', "[1] [2", '{"a":1} {"a":']:
+                sid = "np%d" % k
+                k += 1
+                files = [("in0.json", text)]
+                sc = Scenario(sid, prog, files, [], "nopattern+malformed", None)
+                self.scenarios.append(sc)
+                cases.append(Case(sid + "F", lib_line(sid + "F", prog, files, []), sc.meta(role="library run, named files"), True))
+                cases.append(Case(sid + "S", lib_line(sid + "S", prog, [("<stdin>", text)], []), sc.meta(role="library run, stdin"), True))
         # ---- -o to a destination that cannot take the document (every kind of OFAULTS for every scenario)
         self.oscen = []
         n = 80 if tier == "quick" else 800
